@@ -936,6 +936,7 @@ var netConfigs = map[string]netCfg{
 	"4eq-calm":  {powers: []int64{1, 1, 1, 1}, byz: nil, maxH: 5, maxSteps: 2500, dropPct: 3, reorderPct: 20, earlyPct: 5, byzPct: 0},
 	"5w-byz":    {powers: []int64{3, 2, 2, 1, 1}, byz: []int{2}, maxH: 3, maxSteps: 3000, dropPct: 8, reorderPct: 35, earlyPct: 25, byzPct: 6},
 	"7eq-byz2":  {powers: []int64{1, 1, 1, 1, 1, 1, 1}, byz: []int{3, 6}, maxH: 3, maxSteps: 4000, dropPct: 6, reorderPct: 30, earlyPct: 20, byzPct: 6},
+	"5eq-byz":   {powers: []int64{1, 1, 1, 1, 1}, byz: []int{3}, maxH: 3, maxSteps: 2500, dropPct: 8, reorderPct: 35, earlyPct: 25, byzPct: 8}, // total 5: remainder 2 modulo three
 	"3eq-nobyz": {powers: []int64{1, 1, 1}, byz: nil, maxH: 4, maxSteps: 2000, dropPct: 10, reorderPct: 40, earlyPct: 30, byzPct: 0},
 	// validator-set changes across heights (the application's result of block k is in force from height k+2): power
 	// raised, a correct validator removed and re-added with another power, the Byzantine validator's power changed
